@@ -17,10 +17,11 @@ NONE = 1000
 EXPRS = ["csnap", "chv", "cfirst", "dlsnap", "d.items", "kids:items.value", "value", "child.value", "child:value", "child.child.value", "kids.items.value", "kids:items:value",
          "child.kids.items.value", "[child,kids.items].value", "kids.items.child.value", "d.items.value",
          "child.d:items.value", "+tracked.value", "+tracked:kids.items", "+ltracked:items.value", "child.*", "kids.items",
-         "child", "s.items.value", "s.items", "child.s:items.value", "dl.items.items.value", "dl.items.items"]
+         "child", "s.items.value", "s.items", "child.s:items.value", "dl.items.items.value", "dl.items.items",
+         "box!items.value", "box!items"]
 NH = 3
 XTRAIT = [None]      # ONE CTrait object handed to add_trait for every object that has no donor yet
-LINK_MUTS = ("child", "kidsassign", "kids", "dassign", "d", "sassign", "s", "dlassign", "dl", "dlin", "del")
+LINK_MUTS = ("child", "kidsassign", "kids", "dassign", "d", "sassign", "s", "dlassign", "dl", "dlin", "del", "boxassign", "box")
 
 
 def _api():
@@ -29,9 +30,24 @@ def _api():
     return obsclasses
 
 
+def expr_of(text):
+    """what is handed to observe(): the text itself, or - for the catalogue entries written with "!items" - an expression
+    built with the expression API whose list_items() is NOT optional"""
+    if "!" not in text:
+        return text
+    from traits.observation.api import trait
+    e = trait("box").list_items()
+    if text.endswith(".value"):
+        e = e.trait("value")
+    return e
+
+
 def project_paths(text):
     """compile_str(text) -> list of paths of [k, n, notify] (items alternatives collapsed)"""
-    from traits.observation.parsing import compile_str
+    from traits.observation.parsing import compile_str as _compile_str
+
+    def compile_str(t):
+        return _compile_str(t) if "!" not in t else expr_of(t)._as_graphs()
     from traits.observation._named_trait_observer import NamedTraitObserver
     from traits.observation._list_item_observer import ListItemObserver
     from traits.observation._dict_item_observer import DictItemObserver
@@ -45,6 +61,8 @@ def project_paths(text):
             if o.name == "items" and o.optional:
                 return ("items", "", bool(o.notify))
             return ("trait", o.name, bool(o.notify))
+        if type(o) is ListItemObserver and not o.optional:
+            return ("litems", "", bool(o.notify))
         if type(o) in (ListItemObserver, DictItemObserver, SetItemObserver):
             return ("items", "", bool(o.notify))
         if type(o) is FilteredTraitObserver:
@@ -112,6 +130,9 @@ class Pool(object):
         if isinstance(event, TraitChangeEvent):
             return ["trait", self.tok.get(id(event.object), 0), event.name]
         if isinstance(event, ListChangeEvent):
+            for kk in range(1, NOBJ + 1):
+                if self.objs[kk].__dict__.get("box") is event.object:
+                    return ["b", kk, ""]
             k = self.owner_of(event.object)
             return ["L" if k >= 100 else "l", k, ""]
         if isinstance(event, DictChangeEvent):
@@ -153,7 +174,14 @@ class Pool(object):
             has = "extra" in o._instance_traits()
             hasx.append(1 if has else 0)
             xv.append(o.__dict__.get("extra", 0) if has else 0)
-        return {"child": child, "kids": kids, "d": d, "vals": vals, "s": s, "dl": dl, "hasx": hasx, "xv": xv}
+        box, boxi = [], []
+        for k in range(1, NOBJ + 1):
+            b = self.objs[k].__dict__.get("box", ())
+            isl = isinstance(b, (list, tuple))
+            box.append([self.tok.get(id(x), 0) for x in b] if isl else [])
+            boxi.append(0 if isl else 1)
+        return {"child": child, "kids": kids, "d": d, "vals": vals, "s": s, "dl": dl, "hasx": hasx, "xv": xv,
+                "box": box, "boxi": boxi}
 
     def census(self):
         """per notifier list of the pool: how many entries belong to OUR handlers (user notifiers and maintainers of the
@@ -175,11 +203,11 @@ class Pool(object):
         for k in range(1, NOBJ + 1):
             o = self.objs[k]
             for n in ("child", "kids", "d", "value", "trait_added", "kids_items", "d_items", "csnap", "chv", "cfirst", "dlsnap", "s", "dl",
-                      "s_items", "dl_items", "extra"):
+                      "s_items", "dl_items", "extra", "box", "box_items"):
                 t = o._trait(n, 0)
                 tot.append(count(t._notifiers(False)) if t is not None else 0)
-            for cn in ("kids", "d", "s", "dl"):
-                tot.append(count(o.__dict__[cn].notifiers) if cn in o.__dict__ else 0)
+            for cn in ("kids", "d", "s", "dl", "box"):
+                tot.append(count(getattr(o.__dict__[cn], "notifiers", ())) if cn in o.__dict__ else 0)
             # inner lists of dl: one total (their number varies)
             tot.append(sum(count(inner.notifiers) for inner in o.__dict__.get("dl", {}).values()))
             tot.append(count(o._notifiers(False)))
@@ -289,8 +317,15 @@ def apply_mut(pool, m):
         x.kids = [O(k) for k in m["xs"]]
     elif t == "value":
         x.value += 1
-    elif t == "kids":
-        l = x.kids
+    elif t == "boxassign":
+        x.box = [O(k) for k in m["xs"]]
+    elif t == "boxint":
+        if a[1] == 1:
+            x.trait_setq(box=5)
+        else:
+            x.box = 5
+    elif t in ("kids", "box"):
+        l = getattr(x, t)
         xs = [O(k) for k in m["xs"]]
         if op == "setitem":
             l[a[0]] = xs[0]
@@ -546,6 +581,29 @@ def random_mut2(rnd, heap, m, x, ro):
         if n > 4 and op in ("append", "extend", "insert"):
             op, xs = "clear", []
         m.update(t="dlin", op=op, a=a, xs=xs)
+    elif u < 0.93:
+        cur = heap["box"][x - 1]
+        isint = heap["boxi"][x - 1]
+        v = rnd.random()
+        if isint or v < 0.35:
+            m.update(t="boxassign", xs=list(cur) if (v < 0.1 and not isint) else [ro() for _ in range(rnd.randint(0, 2))])
+        elif v < 0.85:
+            n = len(cur)
+            op = rnd.choice(["append", "append", "pop", "remove", "setitem", "reverse", "clear", "extend"])
+            a, xs = [0, 0, 0], []
+            if op in ("append", "remove"):
+                xs = [ro()]
+            elif op == "extend":
+                xs = [ro() for _ in range(rnd.randint(0, 2))]
+            elif op == "pop":
+                a[0] = NONE if rnd.random() < 0.5 else rnd.randint(-n - 1, n)
+            elif op == "setitem":
+                a[0], xs = rnd.randint(-n - 1, n), [ro()]
+            if n > 4 and op in ("append", "extend"):
+                op, xs = "clear", []
+            m.update(t="box", op=op, a=a, xs=xs)
+        else:
+            m.update(t="boxint", a=[0, 1 if rnd.random() < 0.7 else 0, 0])
     elif u < 0.96 and not heap["hasx"][x - 1]:
         m.update(t="addx", a=[rnd.randint(0, 3), 0, 0])
     else:
@@ -577,6 +635,7 @@ def run_history(rnd, steps, t, p_loop=0.0):
     from traits.observation.exceptions import NotifierNotFound
     pool = Pool()
     out = []
+    after_quiet = False
     for s in range(steps):
         pre = pool.heap()
         regs1 = pool.regs_list()
@@ -584,6 +643,8 @@ def run_history(rnd, steps, t, p_loop=0.0):
         pool.clear_logs()
         exc = ""
         u = rnd.random()
+        if after_quiet:
+            u = 0.0             # the step after a quiet assignment is a registration step (the last of the history)
         paths = []
         live = [h for h in range(1, NH + 1) if h not in pool.dropped]
         if u > 0.985 and s > 2 and [h for h in live if h != 1]:
@@ -643,11 +704,19 @@ def run_history(rnd, steps, t, p_loop=0.0):
             continue
         if u < 0.22 or not regs1 and u < 0.5:
             h = rnd.choice(live)
-            e = pool.regs[h][0] if h in pool.regs else rnd.choice(EXPRS)
+            e = pool.regs[h][0] if h in pool.regs else rnd.choice(EXPRS + ["box!items.value", "box!items"])
             remove = h in pool.regs and pool.regs[h][1] > 0 and rnd.random() < 0.5 or rnd.random() < 0.08
+            if after_quiet:
+                # prefer a registration that walks through box: its removal / a further registration must fail cleanly
+                onbox = [hh for hh in live if hh in pool.regs and pool.regs[hh][0].startswith("box!")]
+                if onbox:
+                    h = rnd.choice(onbox)
+                    e, remove = pool.regs[h][0], rnd.random() < 0.7
+                elif h not in pool.regs:
+                    e, remove = rnd.choice(["box!items.value", "box!items"]), False
             m = {"t": "unobserve" if remove else "observe", "h": h, "e": e, "op": "", "x": 1, "a": [0, 0, 0], "xs": [], "ps": []}
             try:
-                pool.objs[1].observe(pool.handler(h), e, remove=remove)
+                pool.objs[1].observe(pool.handler(h), expr_of(e), remove=remove)
                 cur = pool.regs.get(h, [e, 0])
                 pool.regs[h] = [e, cur[1] + (-1 if remove else 1)]
                 if pool.regs[h][1] <= 0:
@@ -660,6 +729,9 @@ def run_history(rnd, steps, t, p_loop=0.0):
                 paths = project_paths(e)
         else:
             m = random_mut(rnd, pre, True)
+            if any(r["e"].startswith("box!") for r in regs1) and rnd.random() < 0.12:
+                # a registration walks through root.box: put the int there QUIETLY; the next step is its removal
+                m = {"t": "boxint", "op": "", "x": 1, "a": [0, 1, 0], "xs": [], "ps": []}
             m["h"] = 0
             m["e"] = ""
             pool.muts.append((pre, m))
@@ -674,7 +746,12 @@ def run_history(rnd, steps, t, p_loop=0.0):
         probe = pool.probe()
         out.append({"tid": t, "step": s, "m": m, "exc": exc, "pre": pre, "post": post, "regs": regs1, "regs2": regs2,
                     "calls": calls, "probe": probe, "xprobe": pool.xprobe_safe(), "census0": pool.census0, "census1": census1, "census2": census2,
-                    "paths": paths, "alive": 0, "dropped": len(pool.dropped)})
+                    "paths": paths, "alive": 0, "dropped": len(pool.dropped), "afterquiet": 1 if after_quiet else 0})
+        if after_quiet:
+            break
+        if m["t"] == "boxint" and m["a"][1] == 1:
+            after_quiet = True
+            continue
         if m["t"] in LINK_MUTS and on_cycle(pre, m["x"]):
             break               # known finding F8: from here on the code is off-specification
         if NOVAL in post["kids"][0] or post["child"][0] == NOVAL:
